@@ -15,7 +15,8 @@ fn xy(x: f64, y: f64) -> Customxy {
 
 fn whites() -> Vec<(String, WhitePoint)> {
     let mut v = vec![("D65".to_string(), WhitePoint::D65), ("E".into(), WhitePoint::E), ("DCI".into(), WhitePoint::Dci)];
-    for (x, y) in [(0.3457, 0.3585), (0.3101, 0.3162), (0.28, 0.29), (0.36, 0.37), (0.44757, 0.40745)] {
+    // (the last two are D65 and E moved by 5e-4 in one coordinate: custom, not the named point)
+    for (x, y) in [(0.3457, 0.3585), (0.3101, 0.3162), (0.28, 0.29), (0.36, 0.37), (0.44757, 0.40745), (0.3132, 0.3290), (0.33333, 0.33383)] {
         v.push((format!("custom({x},{y})"), WhitePoint::Custom(xy(x, y))));
     }
     v
@@ -31,6 +32,21 @@ fn primaries() -> Vec<(String, Primaries)> {
     ];
     for (i, s) in sets.iter().enumerate() {
         v.push((format!("custom{i}"), Primaries::Custom { red: xy(s[0].0, s[0].1), green: xy(s[1].0, s[1].1), blue: xy(s[2].0, s[2].1) }));
+    }
+    // custom sets that agree with a named set in two primaries and differ in the third (red / green / blue in turn):
+    // a recogniser that does not compare all three would call them by the name
+    let named: [(&str, [(f64, f64); 3]); 3] = [
+        ("srgb", [(0.639998686, 0.330010138), (0.300003784, 0.600003357), (0.150002046, 0.059997204)]),
+        ("2100", [(0.708, 0.292), (0.170, 0.797), (0.131, 0.046)]),
+        ("p3", [(0.680, 0.320), (0.265, 0.690), (0.150, 0.060)]),
+    ];
+    let other: [(f64, f64); 3] = [(0.61, 0.35), (0.24, 0.66), (0.14, 0.10)];
+    for (n, set) in named.iter() {
+        for k in 0..3 {
+            let mut s = *set;
+            s[k] = other[k];
+            v.push((format!("{n}-but-{}", ["red", "green", "blue"][k]), Primaries::Custom { red: xy(s[0].0, s[0].1), green: xy(s[1].0, s[1].1), blue: xy(s[2].0, s[2].1) }));
+        }
     }
     v
 }
@@ -147,7 +163,19 @@ struct TfResult {
 }
 
 /// Round trip linear -> tf -> linear over the given f32 bit patterns, in slices of `chunk` samples.
-fn tf_roundtrip(name: &str, tf: TransferFunction, lo_bits: u32, hi_bits: u32, step: u32, chunk: usize, tol: f64) -> TfResult {
+thread_local! {
+    static MEASURE: std::cell::RefCell<std::collections::BTreeMap<(String, i32), (f64, f64)>> = Default::default();
+}
+
+pub fn dump_measure() {
+    MEASURE.with(|m| {
+        for ((n, d), (e, r)) in m.borrow().iter() {
+            println!("MEASURE {n} decade 1e{d}: max abs err {e:.3e}, max rel err {r:.3e}");
+        }
+    });
+}
+
+fn tf_roundtrip(name: &str, tf: TransferFunction, lo_bits: u32, hi_bits: u32, step: u32, chunk: usize, tol: (f64, f64)) -> TfResult {
     let hdr = default_header();
     let m = &hdr.metadata;
     let fwd = ColorTransform::new(&enc(TransferFunction::Linear), &enc(tf), &m.opsin_inverse_matrix, &m.tone_mapping, &NullCms);
@@ -156,6 +184,7 @@ fn tf_roundtrip(name: &str, tf: TransferFunction, lo_bits: u32, hi_bits: u32, st
         return TfResult { samples: 0, max_err: 0.0, worst: 0.0, viol: Some((format!("transform-unavailable:{name}"), "cannot build the transform".into())) };
     };
     let mut res = TfResult { samples: 0, max_err: 0.0, worst: 0.0, viol: None };
+    let measuring = std::env::var("VERIF_C19_MEASURE").is_ok();
     let mut bits = lo_bits;
     let mut prev_enc: Option<(f32, f32)> = None;
     while bits <= hi_bits {
@@ -191,12 +220,22 @@ fn tf_roundtrip(name: &str, tf: TransferFunction, lo_bits: u32, hi_bits: u32, st
             res.samples += 1;
             let x = xs[i] as f64;
             let err = (a[i] as f64 - x).abs();
+            if measuring && x > 0.0 {
+                let d = (x.log10().floor() as i32).clamp(-10, 0);
+                MEASURE.with(|m| {
+                    let mut m = m.borrow_mut();
+                    let e = m.entry((name.to_string(), d)).or_insert((0f64, 0f64));
+                    e.0 = e.0.max(err);
+                    e.1 = e.1.max(err / x);
+                });
+            }
             if err > res.max_err {
                 res.max_err = err;
                 res.worst = x;
             }
-            if !(err <= tol) && res.viol.is_none() {
-                res.viol = Some((format!("roundtrip:{name}"), format!("{name}: sample {x:e} (slice index {i} of {n}) encodes to {} and decodes to {} (error {err:e} > {tol:e})", encd[i], a[i])));
+            let allowed = tol.0 * x.abs() + tol.1;
+            if !(err <= allowed) && res.viol.is_none() {
+                res.viol = Some((format!("roundtrip:{name}"), format!("{name}: sample {x:e} (slice index {i} of {n}) encodes to {} and decodes to {} (error {err:e} > {allowed:e} = {:e} x + {:e})", encd[i], a[i], tol.0, tol.1)));
             }
             // monotone (non-decreasing) encode on increasing inputs
             if let Some((px, pe)) = prev_enc {
@@ -253,15 +292,18 @@ pub fn main(args: &crate::Args) {
     }
     // (b) transfer functions
     let one = 1.0f32.to_bits();
-    let tf_list: Vec<(&str, TransferFunction, f64)> = vec![
-        // tolerances: measured maximum over every f32 in [0,1] on the unchanged tree (sRGB 3.8e-4 — its encode uses a
-        // fast approximation good to ~1.7e-4 —, BT.709 4.5e-6, DCI 5e-6, gamma 4.5e-6, PQ 2.4e-5, HLG 4.2e-7) with >= 4x margin
-        ("srgb", TransferFunction::Srgb, 2e-3),
-        ("bt709", TransferFunction::Bt709, 5e-5),
-        ("dci", TransferFunction::Dci, 5e-5),
-        ("gamma2.2", TransferFunction::Gamma { g: 4545455, inverted: true }, 5e-5),
-        ("pq", TransferFunction::Pq, 2e-4),
-        ("hlg", TransferFunction::Hlg, 5e-5),
+    let tf_list: Vec<(&str, TransferFunction, (f64, f64))> = vec![
+        // tolerance = rel * x + floor.  Measured per decade of x on the unchanged tree (VERIF_C19_MEASURE=1): the error of
+        // every curve but PQ is relative (sRGB <= 4.2e-4 x above its linear toe - its kernels are fast approximations -,
+        // 1e-7 x in the toe; BT.709 / DCI / gamma <= 8e-6 x, with values below 1e-7 flushed to 0; HLG <= 1.2e-5 x),
+        // PQ's is absolute (<= 2.5e-5 everywhere).  Margins >= 4x.  A purely absolute tolerance would let an error of a
+        // multiple of the sample through for dark samples.
+        ("srgb", TransferFunction::Srgb, (2e-3, 1e-9)),
+        ("bt709", TransferFunction::Bt709, (4e-5, 1e-9)),
+        ("dci", TransferFunction::Dci, (4e-5, 4e-7)),
+        ("gamma2.2", TransferFunction::Gamma { g: 4545455, inverted: true }, (4e-5, 4e-7)),
+        ("pq", TransferFunction::Pq, (2e-5, 1e-4)),
+        ("hlg", TransferFunction::Hlg, (6e-5, 1e-9)),
     ];
     // jobs: (tf index, lo, hi, step, chunk)
     let mut jobs: Vec<(usize, u32, u32, u32, usize)> = vec![];
@@ -279,6 +321,14 @@ pub fn main(args: &crate::Args) {
             jobs.push((ti, 0x3c00_0000, 0x3f80_0000, (0x0380_0000 / 200) as u32, len));
         }
         jobs.push((ti, 0, lo, 1 << 18, 4096)); // tiny values incl. 0 and subnormals
+    }
+    if std::env::var("VERIF_C19_MEASURE").is_ok() {
+        // single-threaded measuring run (thread-local statistics)
+        for &(ti, a, b, st, chunk) in &jobs {
+            let _ = tf_roundtrip(tf_list[ti].0, tf_list[ti].1, a, b, st, chunk, (1.0, 1.0));
+        }
+        dump_measure();
+        std::process::exit(0);
     }
     let tr = par_map(&jobs, n_threads(), |_, &(ti, a, b, st, chunk)| tf_roundtrip(tf_list[ti].0, tf_list[ti].1, a, b, st, chunk, tf_list[ti].2));
     let mut samples = 0u64;
@@ -324,7 +374,7 @@ pub fn main(args: &crate::Args) {
             }
         }
     }
-    rep.rule = format!("(a) FULL PRODUCT of enumerated encodings: {{RGB, Grey}} x 8 white points (D65, E, DCI, 5 custom) x 7 primaries (sRGB, 2100, P3, 4 custom real gamuts) x 14 transfer functions (709, linear, sRGB, PQ, DCI, HLG, 8 gammas up to 1.0) x 4 intents = {} encodings: synthesise ICC, parse back, compare as the statement prescribes (1e-4 on xy, 1e-4 relative on gamma); (b) for sRGB, BT.709, DCI, gamma 2.2, PQ, HLG: linear -> curve -> linear through ColorTransform on {} f32 bit pattern in [4.7e-10, 1] plus a lattice below, round-trip error within per-curve tolerances fixed from the unchanged tree (sRGB 2e-3, PQ 2e-4, others 5e-5) and encode monotone, and the same on every slice length 1..67; (c) identity conversion for every tf x primaries leaves samples bit-identical.", encs.len(), if quick { "every 4096th" } else { "EVERY" });
+    rep.rule = format!("(a) FULL PRODUCT of enumerated encodings: {{RGB, Grey}} x 10 white points (D65, E, DCI, 5 custom, D65 and E moved by 5e-4) x 16 primaries (sRGB, 2100, P3, 4 custom real gamuts, 9 sets equal to a named set in two primaries only) x 14 transfer functions (709, linear, sRGB, PQ, DCI, HLG, 8 gammas up to 1.0) x 4 intents = {} encodings: synthesise ICC, parse back, compare as the statement prescribes (1e-4 on xy, 1e-4 relative on gamma); (b) for sRGB, BT.709, DCI, gamma 2.2, PQ, HLG: linear -> curve -> linear through ColorTransform on {} f32 bit pattern in [4.7e-10, 1] plus a lattice below, round-trip error within per-curve tolerances rel*x + floor fixed from the per-decade error of the unchanged tree (sRGB 2e-3 x, BT.709 / DCI / gamma 4e-5 x, HLG 6e-5 x, PQ 2e-5 x + 1e-4) and encode monotone, and the same on every slice length 1..67; (c) identity conversion for every tf x primaries leaves samples bit-identical.", encs.len(), if quick { "every 4096th" } else { "EVERY" });
     rep.sample(json!({"encoding": encs[encs.len() / 2].0}));
     rep.sample(json!({"tf": "pq", "range_bits": [lo, one], "step": step}));
     rep.extra.insert("tf_samples".into(), json!(samples));
